@@ -6,6 +6,8 @@
 (* in-plane move replaces "the last len(blip) samples of the axis built so  *)
 (* far" by a trap_grad blip; finally a refocusing lobe of half the          *)
 (* sub-pulse area.  Dimensionless units as in Trap.tla.                     *)
+(* The y axis is the same surgery applied to the ky increments: the replay  *)
+(* binds it to a second behaviour with the same limits and spoke count.     *)
 (* State after `done` spokes: per-axis length, and for every spoke window   *)
 (* the area that the x axis carries inside it.                              *)
 EXTENDS TrapDefs
